@@ -469,6 +469,8 @@ EDGE_SNIPPETS = [
     'f(if c then 1)', 'f(if c then 1, 2)', 'f(1, if c then 2)', 'f(let a = 1, a)', 'f(a <- 1)', 'f(while c do 1)', 'o.m(if c then 1)', 'o.m(if c then 1, 2)', 'a[if c then 1]', 'a[let i = 0]', 'a[i <- 0]',
     'a[if c then 1] <- 2', 'a[0] <- if c then 1', 'o.f <- if c then 1', 'x <- if c then 1', 'let v = if c then 1', 'print("~", if c then 1)', 'print("~ ~", if c then 1, 2)', '(if c then 1)', '(if c then 1) + 2',
     'if c then 1 + 2', '1 + if c then 2', 'if c then 1 else if d then 2', 'if if a then b then c', 'if a then b else c + 1', 'while if a then b do c', 'object extends if c then a begin end', 'object begin let f = if c then 1 end',
+    'object begin function +(o) -> if c then 1 end', 'object begin function ==(o) -> if c then 1; let g = 2 end', 'object begin function <=(o) -> while c do if d then 1 end', 'object begin function *(o) -> x <- if c then 1 end',
+    'object begin function +(o) -> let v = if c then 1 end', 'object begin function %(o) -> if a then 1 else if b then 2 end', 'object begin function &(o) -> if c then 1; function |(o) -> if d then 2 end',
     'object begin let f = if c then 1; let g = 2 end', 'object begin function m() -> if c then 1 end', 'object begin function m() -> if c then 1; let g = 2 end', 'function f() -> if c then 1', 'function f() -> if c then 1; 2',
     'begin if c then 1 end', 'begin if c then 1; 2 end', 'begin let v = if c then 1; v end', 'while c do if d then 1', 'while c do if d then 1; 2', 'while c do x <- if d then 1',
     'null', 'true', 'false', 'null.f()', 'true & false', 'null == null', 'null(1)', 'true.b', '1.f()', '1.+(2)', '(1).+(2)', '1 .f()', '"a".b',
